@@ -98,12 +98,18 @@ def run_cases(cases, res):
 
 def best_sizes(rng, n, res):
     """size inference for scaled objects sizes the transformed value: same sizes as the unscaled Fxp of t"""
-    fx = lib.impl()
+    cases = []
     for _ in range(n):
         scale = Fraction(rng.choice([1, -1, 2, 4, 1]), 2 ** rng.randint(0, 4)); bias = Fraction(rng.randint(-16, 16), 2 ** rng.randint(0, 3))
         t = Fraction(rng.randint(-2**12, 2**12), 2 ** rng.randint(0, 8)); v = scale * t + bias
         if not all(exact_double(q) for q in (v, v - bias, t, scale, bias)) or (scale == 1 and bias == 0): continue
-        c = {'scale': str(scale), 'bias': str(bias), 't': str(t)}
+        cases.append({'scale': str(scale), 'bias': str(bias), 't': str(t)})
+    best_sizes_cases(cases, res)
+
+def best_sizes_cases(cases, res):
+    fx = lib.impl()
+    for c in cases:
+        scale, bias, t = Fraction(c['scale']), Fraction(c['bias']), Fraction(c['t']); v = scale * t + bias
         try:
             a = fx.Fxp(float(v), scale=float(scale), bias=float(bias)); b = fx.Fxp(float(t))
         except Exception as e:
@@ -124,4 +130,5 @@ def classify(fl): return None
 def replay(payload):
     c = payload['case']; res = Result()
     if 'vs' in c: run_cases([unj(c)], res)
+    elif 't' in c: best_sizes_cases([c], res)
     return {'holds': not res.failures, 'failures': res.failures}
